@@ -19,6 +19,9 @@ var knownFieldsTxt string
 
 var fieldAlias = map[*types.Var]string{}
 
+// nestedKnown: paths the frozen table lists as anonymous nested structs.
+var nestedKnown = map[string]bool{}
+
 // CanonField returns the name under which the rules know the field.
 func CanonField(v *types.Var) string {
 	if v == nil {
@@ -60,6 +63,9 @@ func (w *World) walkStructs(fn structWalk) {
 				for i := 0; i < st.NumFields(); i++ {
 					f := st.Field(i)
 					if inner, ok := f.Type().(*types.Struct); ok {
+						rec(path+"."+CanonField(f), inner, d+1)
+					} else if inner, ok := f.Type().Underlying().(*types.Struct); ok && nestedKnown[path+"."+CanonField(f)] {
+						// an anonymous nested struct of the confirmed tree that has since been given a name
 						rec(path+"."+CanonField(f), inner, d+1)
 					}
 				}
@@ -106,6 +112,9 @@ func (w *World) buildFieldAliases() []string {
 			expected[sp] = map[string]string{}
 		}
 		expected[sp][f] = parts[1]
+		if parts[1] == "struct" {
+			nestedKnown[parts[0]] = true
+		}
 	}
 	var notes []string
 	w.walkStructs(func(path string, st *types.Struct) {
@@ -135,7 +144,7 @@ func (w *World) buildFieldAliases() []string {
 					continue
 				}
 				t := relType(f.Type())
-				if _, ok := f.Type().(*types.Struct); ok {
+				if _, ok := f.Type().Underlying().(*types.Struct); ok && exp[m] == "struct" {
 					t = "struct"
 				}
 				if t == exp[m] {
